@@ -27,7 +27,8 @@ the sequence into one, so that the comparison points are the same as on the impl
   ['popfeat', c, idx, via] ['popop', c, idx, via]                                               = rmfeat / rmop of that one
   ['editop', c, name, edits]     edits the eParameters of the EOperation object last known as `name` of class c (declared
                                  there, or removed from there) IN PLACE: ['append', p] ['insert', i, p] ['remove', i]
-                                 ['flip', i] (required flag) ['move', i, j]; no model op (the model's operations are values):
+                                 ['flip', i] (required flag) ['move', i, j] and the bulk forms ['clear'] ['delslice'] ['delattr']
+                                 ['extend', [p..]] ['iadd', [p..]] ['assign', [p..]] ['pop', i]; no model op (the model's operations are values):
                                  when the operation is declared at that moment pyecore regenerates its method (fix e6fe3b2)
                                  and the history is for the oracle only (`has_live_edit`)
   ['redecl', dst, src, name, via]  dst.eOperations.append/extend/insert(len, ..)/+= of THAT SAME object (a move when it is still
@@ -180,6 +181,14 @@ def apply_param_edits(params, edits):
             ps[e[1]][1] = 0 if ps[e[1]][1] else 1
         elif e[0] == 'move':
             ps.insert(e[2], ps.pop(e[1]))
+        elif e[0] in ('clear', 'delslice', 'delattr'):       # eParameters.clear() / del eParameters[:] / del op.eParameters
+            ps = []
+        elif e[0] in ('extend', 'iadd'):                     # eParameters.extend([..]) / eParameters += [..]
+            ps += [list(p) for p in e[1]]
+        elif e[0] == 'assign':                               # op.eParameters = [..]   (fresh parameter objects)
+            ps = [list(p) for p in e[1]]
+        elif e[0] == 'pop':                                  # eParameters.pop() / pop(i)
+            ps.pop(e[1])
         else:
             raise AssertionError(e)
     return ps
@@ -407,6 +416,8 @@ class Impl:
         self.typars = {}
         self.insts = []
         self.names = []
+        self.class_names = []
+        self.name_pkgs = []
         self.enum = ec.EEnum('LitEnum', literals=['lit_a', 'lit_b'])
         self.sdt = ec.EDataType('StrDT', str, default_value='hello')
 
@@ -506,11 +517,18 @@ class Impl:
             if k == 'newclass':
                 cid = len(self.classes)
                 sup = tuple(self.classes[s] for s in op[1])
+                # class_names (run_impl): [name, package 0|1|2] per class -- several classes may carry the SAME name
+                cname, pk = self.class_names[cid - 1] if cid - 1 < len(self.class_names) else (f'C{cid}', 0)
                 if len(sup) == 1:
-                    C = ec.EClass(f'C{cid}', superclass=sup[0])
+                    C = ec.EClass(cname, superclass=sup[0])
                 else:
-                    C = ec.EClass(f'C{cid}', superclass=sup)
+                    C = ec.EClass(cname, superclass=sup)
                 self.classes.append(C)
+                if pk:
+                    if not self.name_pkgs:
+                        self.name_pkgs = [ec.EPackage('geometry', nsURI='http://verif/c12/geometry', nsPrefix='geometry'),
+                                          ec.EPackage('graph', nsURI='http://verif/c12/graph', nsPrefix='graph')]
+                    self.name_pkgs[pk - 1].eClassifiers.append(C)
                 self.feats[cid], self.ops[cid] = [], []
                 return 0, [cid]
             if k == 'addsuper':
@@ -756,6 +774,20 @@ class Impl:
                     elif e[0] == 'move':
                         x = ps.pop(e[1])
                         ps.insert(e[2], x)
+                    elif e[0] == 'clear':
+                        ps.clear()
+                    elif e[0] == 'delslice':
+                        del ps[:]
+                    elif e[0] == 'delattr':
+                        del o.eParameters
+                    elif e[0] == 'extend':
+                        ps.extend([self.new_param(q) for q in e[1]])
+                    elif e[0] == 'iadd':
+                        ps += [self.new_param(q) for q in e[1]]
+                    elif e[0] == 'assign':
+                        o.eParameters = [self.new_param(q) for q in e[1]]
+                    elif e[0] == 'pop':
+                        ps.pop() if e[1] == -1 else ps.pop(e[1])
                     else:
                         raise AssertionError(e)
                 return 0, []
@@ -855,12 +887,14 @@ class Impl:
         return out, disagreements
 
 
-def run_impl(history, names, intern=None):
-    """-> dict(tokens, per_op=[(code,payload)], flag_before, flag_after, iso_disagreements)"""
+def run_impl(history, names, intern=None, class_names=None):
+    """-> dict(tokens, per_op=[(code,payload)], flag_before, flag_after, iso_disagreements)
+    class_names: [[name, package 0|1|2], ...] for the classes in creation order (default: C1, C2, ... without package)"""
     intern = intern or Interner()
     before = flag_installed() if 'pyecore.ecore' in sys.modules else False
     im = Impl(intern)
     im.names = list(names)
+    im.class_names = [tuple(x) for x in (class_names or [])]
     before = flag_installed()
     toks, per_op = [], []
     for op in history:
